@@ -116,6 +116,9 @@ def _old_style(add):
     add("old-head-nearmiss", ["1 { s(X) : d(X) } 2.", "a :- 2 { s(X) }."])
     add("old-head-nearmiss", ["{ s(X) : d(X); t(X) : not e(X), d(X) } = 1."])
     add("old-head-nearmiss", ["1 <= #count { X : s(X) : d(X) } <= 2."])
+    # classically negated element atoms
+    add("old-classical", [CH, "-s(X) :- e(X); not s(X).", "cnt(N) :- N = { -s(X) : d(X); not -s(X) : e(X) }."])
+    add("old-classical", [CH, "-s(X) :- e(X); not s(X).", ":- not 1 { -s(X); s(X) : e(X) } 2."])
     # two old-style aggregates in one body share the AUX name space
     add("old-two-aggs", [CH, "a :- 1 { r(X,_) }; { r(_,Y) : d(Y) } 2; e(X)."])
     add("old-two-aggs", [CH, "a(X) :- d(X); 1 { s(X); s(X+1) } 1; not { s(1..X) } 0."])
@@ -189,6 +192,8 @@ def _infsup(add):
             for gi, (lg, rg) in enumerate(gl):
                 if fname == "sum" and kind == "real" and gi % 2:
                     continue
+                if fname in ("min", "max") and kind == "vacuous" and (gi + fi) % 2:
+                    continue
                 if fname in ("minv", "maxv") and (kind == "vacuous" or gi >= 8 or gi % 2):
                     continue
                 if not full and (gi + fi) % 4 != 0:
@@ -238,9 +243,33 @@ def _chains(add):
                 add(f"chain-{pname}-{sname}-len{length}", fn(c, vs, SIGNS[si]))
         # near miss: the literal of a conditional literal and a head aggregate condition are not split
         sg = SIGNS[ci % 3]
-        add("chain-condhead-nearmiss", [CH, f"a :- {sg}{c} : {dom(vs).replace(';', ',')}, s(X)."])
-        if ci % 2 == 0:
+        if ci % 2 == 1:
+            add("chain-condhead-nearmiss", [CH, f"a :- {sg}{c} : {dom(vs).replace(';', ',')}, s(X)."])
+        if ci % 3 == 0:
             add("chain-headagg-nearmiss", [f"{{ t({tup(vs)}) : {dom(vs).replace(';', ',')}, {sg}{c} }}."])
+    # a pool / interval as the middle term of a chain is duplicated by the split (the split runs before unpooling);
+    # near miss: at either end it is not duplicated
+    tmpls = {
+        "body": "a(X,Y) :- d(X); d(Y); {S}X < {M} < Y.",
+        "agg": "cnt(N) :- N = #sum {{ 1,X,Y : d(X), d(Y), {S}X < {M} < Y }}.",
+        "cond": ":- not s(X) : d(X), d(Y), {S}X < {M} < Y.",
+        "old": "cnt(N) :- N = {{ {S}X < {M} < Y : d(X), d(Y) }}.",
+        "min": ":~ d(X); d(Y); {S}X < {M} < Y. [1@0,X,Y]",
+    }
+    for (mi, (mname, mid)), (ti, (tname, tmpl)) in itertools.product(
+        enumerate([("pool", "(1;5)"), ("interval", "(1..3)"), ("pool-arith", "(X+1;Y-2)")]), enumerate(tmpls.items())
+    ):
+        if mname == "pool-arith" and tname not in ("body", "agg"):
+            continue
+        sg = "not not " if (mi + ti) % 3 == 2 else ""
+        lines = [tmpl.format(S=sg, M=mid)]
+        if "s(X)" in lines[0]:
+            lines.insert(0, CH)
+        add(f"chain-{mname}-middle-{tname}", lines)
+    add("chain-pool-end-nearmiss", ["a(X) :- d(X); 0 < X < (2;4)."])
+    add("chain-pool-end-nearmiss", ["a(X) :- d(X); (1;3) < X < 5."])
+    add("chain-interval-end-nearmiss", ["a(X) :- d(X); (1..2) < X < 5."])
+    add("chain-interval-end-nearmiss", ["a(X,Y) :- d(X); d(Y); 0 < X < Y < (2..4)."])
     add("chain-binding", ["a(Y) :- d(X); Y = X+1 < 4."])
     add("chain-binding", ["a(Y,Z) :- d(X); Y = X+1 = Z."])
     add("chain-binding", ["a(Y) :- d(X); 0 < Y = X*2 < 9."])
@@ -271,10 +300,8 @@ def _pools(add):
         "show": "#show t({P}) : d(X){E}.",
     }
     for (pname, pool, extra), (plname, tmpl) in itertools.product(pools, places.items()):
-        if pname == "two" and plname in ("body-dneg", "condhead", "oldcond", "cmp-neg", "min-body", "head-2nd"):
+        if pname == "two" and plname not in ("head", "body", "body-neg", "aggtuple", "oldelem", "choice", "cmp", "show"):
             continue
-        if pname == "const" and plname in ("min-weight",):
-            pass
         add(f"pool-{plname}", [CH, tmpl.format(P=pool, E=extra)])
     add("pool-arith", ["h(X+1;X-1) :- d(X)."])
     add("pool-arith", [CH, "a(X) :- d(X); s(X+1;X-1)."])
@@ -285,7 +312,7 @@ def _pools(add):
 
 
 def _arith(add):
-    terms = ["X+1", "2*X", "X-1", "-X", "|X|", "X*Y", "X/2", "X\\2", "X**2", "(X+1)*2", "f(X+1)", "1+1", "-(X+1)"]
+    terms = ["X+1", "2*X", "X-1", "-X", "|X|", "X*Y", "X/2", "X**2", "(X+1)*2", "f(X+1)", "1+1"]
     places = {
         "head": "p({T}) :- d(X){E}.",
         "head-2args": "p({T},X-1) :- d(X){E}.",
@@ -307,7 +334,7 @@ def _arith(add):
         "classical-nearmiss": "a(X) :- d(X){E}; -p({T}).",
     }
     full = ("head", "body-neg")
-    invertible = ("X+1", "2*X", "X-1", "-X", "-(X+1)")
+    invertible = ("X+1", "2*X", "X-1", "-X")
     for (ti, t), (pi, (pname, tmpl)) in itertools.product(enumerate(terms), enumerate(places.items())):
         if pname == "body-bind":
             if t not in invertible:
@@ -332,13 +359,17 @@ def _arith(add):
     add("arith-multi", ["a(X+Y) :- r(X,Y); not r(Y-1,X+1)."])
     add("arith-aux-name", ["p(AUX+1,AUX0) :- r(AUX,AUX0); not p(AUX0-1,AUX)."])
     add("arith-aux-name", [CH, "a(AUX) :- d(AUX); s(AUX+1); 1 { r(AUX,_) }."])
+    add("arith-interval", ["p(X+(1..2)) :- d(X)."])
+    add("arith-interval", ["a(X) :- d(X); not p(X+(1..2))."])
+    add("arith-interval", ["a(X) :- d(X); p(X-(0..1),2*X)."])
+    add("arith-fact", ["p(1+1).", "p(2*3,f(1+1)).", "a(X) :- d(X); p(X); not p(X,f(2))."])
     add("arith-recursive", ["p(X+1) :- p(X); X < 4.", "p(0) :- d(0)."])
     add("arith-recursive", ["n(X-1) :- n(X); d(X-1).", "n(X) :- e(X)."])
 
 
 def _inline(add):
     # --- occurs check -----------------------------------------------------------------
-    occurs = ["X = X+1", "X = X*3", "X = f(X)", "X = -X", "X = |X|", "X = X+0", "X = X*1", "X+1 = X", "not X != X+1", "X = X"]
+    occurs = ["X = X+1", "X = X*3", "X = f(X)", "X = -X", "X = |X|", "X = X+0", "X+1 = X", "not X != X+1", "X = X"]
     ctx = {
         "rule": "a(X) :- p(X); {E}.",
         "agg": "cnt(N) :- N = #sum {{ X : p(X), {E} }}.",
@@ -376,7 +407,7 @@ def _inline(add):
     ]
     for i, (name, f) in enumerate(forms):
         add(f"inline-form-{name}", [f"a(X,Y) :- p(X); q(Y); {f}."])
-        if i % 2 == 0:
+        if i % 3 == 0:
             add(f"inline-form-{name}", [CH, f":- p(X); q(Y); {f}; not s(X)."])
     # --- anonymous variables ------------------------------------------------------------------
     anon = ["_ = X+1", "X+1 = _", "X = _", "_ = X", "not X != _", "X = f(_)", "X = (_,1)", "not _ != X"]
@@ -403,11 +434,11 @@ def _inline(add):
     add("inline-twice", ["a(X,Y) :- p(X); q(Y); X = Y+1; X = Y+1."])
     add("inline-twice", ["a(X,Y) :- p(X); q(Y); X = Y+1; Y = X-1."])
     # --- X = Y between two globals also used inside an aggregate ------------------------------------
-    for f in ("X = Y", "Y = X", "not X != Y", "X = Y+0"):
+    for f in ("X = Y", "Y = X", "not X != Y"):
         add("inline-globals-in-agg", [f"a(X) :- p(X); q(Y); {f}; 1 <= #sum {{ X,Y : r(X,Y) }}."])
         add("inline-globals-in-agg", [f"a(X,N) :- p(X); q(Y); {f}; N = #count {{ Z : r(X,Z), Z != Y }}."])
     # --- t mentions a variable assigned by an aggregate that itself mentions X --------------------------
-    for agg in ("#sum { Z : r(Z,X) }", "#count { Z : r(Z,X) }", "#max { Z : r(Z,X) }", "{ r(Z,X) }"):
+    for agg in ("#sum { Z : r(Z,X) }", "#max { Z : r(Z,X) }", "{ r(Z,X) }"):
         add("inline-agg-assigned-cycle", [f"a(X) :- p(X); Y = {agg}; X = Y+1."])
         add("inline-agg-assigned-cycle", [f"a(X) :- p(X); Y = {agg}; X = Y."])
     # --- the equality's variable is the aggregate's assigned guard ------------------------------------
@@ -478,7 +509,7 @@ def _minimize(add):
         "[X*X@X\\2,X+1,X-1]",
         "[|X|@1]",
         "[X+1]",
-        "[f(X+1)@0]",
+        "[1@0,f(X+1)]",
     ]
     for i, w in enumerate(ws):
         add("min-arith", [CH, f":~ s(X). {w}"])
@@ -495,6 +526,10 @@ def _minimize(add):
     add("min-old-agg", [CH, ":~ 2 { s(X) : d(X) }. [1@0]"])
     add("min-old-agg", [CH, ":~ d(Y); N = { s(X) : X < Y }. [N+1@0,Y]"])
     add("min-old-agg", [CH, ":~ not { not s(X) : d(X) } 1. [2@1]"])
+    add("min-aux-name", [":~ r(AUX,AUX0). [AUX+1@0,AUX0-1]"])
+    add("min-aux-name", [CH, ":~ s(AUX); not s(AUX+1); not s(AUX-1). [AUX*2@AUX+1]"])
+    add("min-arith-body", [CH, ":~ s(X); d(X+1). [X*2@1]"])
+    add("min-arith-body", [CH, ":~ d(Y); s(X) : d(X), e(X+Y). [Y+1@1,Y]"])
     add("min-two-levels", [CH, ":~ s(X). [X+1@1,X]", ":~ s(X); s(Y); X < Y. [Y-X@2,X,Y]"])
 
 
